@@ -394,6 +394,15 @@ theorem indexVal_bytes (s : Bytes) (i : Nat) (h : i < s.length) :
   simp [indexVal, h]
 theorem indexVal_list (s : List Val) (i : Nat) (h : i < s.length) : indexVal (.list s) (.int i) = .ok s[i] := by
   simp [indexVal, h]
+/-- fields of a record value (`x.f` on a struct is an index with a literal position) -/
+@[simp] theorem indexVal_rec0 (a : Val) (r : List Val) : indexVal (.list (a :: r)) (.int 0) = .ok a := id rfl
+@[simp] theorem indexVal_rec1 (a b : Val) (r : List Val) : indexVal (.list (a :: b :: r)) (.int 1) = .ok b := id rfl
+@[simp] theorem indexVal_rec2 (a b c : Val) (r : List Val) : indexVal (.list (a :: b :: c :: r)) (.int 2) = .ok c := id rfl
+@[simp] theorem indexVal_rec3 (a b c d : Val) (r : List Val) :
+    indexVal (.list (a :: b :: c :: d :: r)) (.int 3) = .ok d := id rfl
+@[simp] theorem indexVal_rec4 (a b c d e : Val) (r : List Val) :
+    indexVal (.list (a :: b :: c :: d :: e :: r)) (.int 4) = .ok e := id rfl
+
 theorem indexVal_bytes_oob (s : Bytes) (i : Int) (h : i < 0 ∨ (s.length : Int) ≤ i) :
     indexVal (.bytes s) (.int i) = .panic .index := by
   simp only [indexVal]
